@@ -374,6 +374,7 @@ Probe == \E u \in Users, cls \in StmtClasses : \E o \in ProbeObjs(cls) : Stmt(u,
 Next == Mutate \/ Probe                 \* exhaustive checking: probes are steps too
 NextMutate == Mutate                    \* histories for the bindings (the replayer runs the probe matrix)
 NextPlain == MutateCore                 \* transition dump: no session state, no reload
+NextFirst == step = 0 /\ NextPlain      \* transition dump of the initial states only (InitOv)
 
 \* The same steps with a different MIX for `-simulate`, which picks uniformly among the successor
 \* states TLC enumerates (duplicates included): the few account / role / session steps are repeated
@@ -473,5 +474,4 @@ StJson(s) == [accts |-> {[a |-> a, locked |-> s.locked[a], pw |-> s.pw[a], g |->
 TblOverlap(G, E) == \E e \in E : \E x \in G[e.to], y \in G[e.r] : x.tbl # "*" /\ x.db = y.db /\ x.tbl = y.tbl /\ x.p # y.p
 Emit == PrintT("TR " \o ToJson([step |-> step', act |-> act', ret |-> ret', pre |-> StJson(StateRec),
                                  ov |-> [pre |-> TblOverlap(grants, edges), post |-> TblOverlap(grants', edges')]]))
-EmitFirst == step = 0 /\ Emit          \* only the transitions out of the initial states
 =============================================================================
